@@ -71,8 +71,29 @@ Lemma ppf_absent s f args a0 : func_kind f = "absent" ->
   parse_promql_func s f args a0 =
   fold_left (fun s name => guarantee_label (include_label s [name]) [name])
             (labels_from_selectors ["MatchEqual"] (s_selector s))
-            (clear_labels (set_fixed (set_returns s VVector) true)).
+            (clear_labels (set_fixed (set_always (set_dead_label (set_dead (set_returns s VVector) false) None) false) true)).
 Proof. intros H. unfold parse_promql_func. rewrite H. reflexivity. Qed.
+
+(** fix f3c0f95: whatever the operand's flags, a source of absent() is neither dead nor always returning *)
+Lemma fold_absent_flags names : forall s,
+  s_dead (fold_left (fun s name => guarantee_label (include_label s [name]) [name]) names s) = s_dead s /\
+  s_always (fold_left (fun s name => guarantee_label (include_label s [name]) [name]) names s) = s_always s /\
+  s_dead_label (fold_left (fun s name => guarantee_label (include_label s [name]) [name]) names s) = s_dead_label s.
+Proof.
+  induction names as [|n r IH]; intros s; cbn [fold_left]; [auto|].
+  destruct (IH (guarantee_label (include_label s [n]) [n])) as [H1 [H2 H3]].
+  rewrite H1, H2, H3. repeat split.
+Qed.
+
+Lemma ppf_absent_flags s f args a0 : func_kind f = "absent" ->
+  s_dead (parse_promql_func s f args a0) = false /\
+  s_always (parse_promql_func s f args a0) = false /\
+  s_dead_label (parse_promql_func s f args a0) = None.
+Proof.
+  intros H. rewrite (ppf_absent _ _ _ _ H).
+  match goal with |- context [fold_left ?fn ?nms ?s0] => destruct (fold_absent_flags nms s0) as [H1 [H2 H3]] end.
+  rewrite H1, H2, H3. repeat split.
+Qed.
 
 Lemma ppf_timelike s f args a0 : func_kind f = "timelike" ->
   parse_promql_func s f args a0 =
@@ -234,7 +255,8 @@ Proof.
   intros Hk Hs Hnd Hl. rewrite call_src_unfold, (ppf_absent _ _ _ _ Hk).
   apply fold_absent_can_have.
   - exact Hnd.
-  - left. cbn [s_selector clear_labels set_guaranteed set_included set_fixed set_returns pre_call set_call set_operation set_type].
+  - left. cbn [s_selector clear_labels set_guaranteed set_included set_fixed set_returns pre_call set_call set_operation set_type
+                    set_always set_dead set_dead_label].
     rewrite Hs. apply absent_labels_names. exact Hl.
 Qed.
 
